@@ -66,6 +66,7 @@ type Term struct {
 	Depth int
 	SV    []*Term // side-constrained variables reachable from this term
 	Side  *Term   // for a side variable: its defining constraint
+	Rad   *Term   // for a real square-root side variable: its (non-negative) radicand
 }
 
 func (t *Term) IsConst() bool { return t.Op == "const" }
@@ -310,6 +311,17 @@ func (tb *TB) Eq(a, b *Term) *Term {
 	}
 	if a.IsConst() && b.IsConst() {
 		return tb.BoolC(constEq(a, b))
+	}
+	if a.S.K == SReal && a != b && (a.Rad != nil || b.Rad != nil) {
+		sq := func(x *Term) *Term { return tb.Arith(token.MUL, x, x, true) }
+		switch {
+		case a.Rad != nil && b.Rad != nil:
+			return tb.Eq(a.Rad, b.Rad)
+		case a.Rad != nil:
+			return tb.And(tb.Cmp(token.LEQ, tb.RealC(0), b, true), tb.Eq(a.Rad, sq(b)))
+		default:
+			return tb.And(tb.Cmp(token.LEQ, tb.RealC(0), a, true), tb.Eq(b.Rad, sq(a)))
+		}
 	}
 	if a == b {
 		if a.S.K != SFP {
@@ -854,6 +866,25 @@ func (tb *TB) Cmp(op token.Token, a, b *Term, signed bool) *Term {
 		panic(fmt.Sprintf("cmp sort mismatch %v %v", a.S, b.S))
 	}
 	lt := op == token.LSS
+	if a.S.K == SReal && (a.Rad != nil || b.Rad != nil) {
+		// comparisons against a real square root are rewritten into polynomial form (sqrt-free):
+		zero := tb.RealC(0)
+		sq := func(x *Term) *Term { return tb.Arith(token.MUL, x, x, true) }
+		switch {
+		case a.Rad != nil && b.Rad != nil: // sqrt(x) ? sqrt(y)  <=>  x ? y
+			return tb.Cmp(op, a.Rad, b.Rad, true)
+		case a.Rad != nil: // sqrt(x) < b <=> b > 0 and x < b^2 ; sqrt(x) <= b <=> b >= 0 and x <= b^2
+			if lt {
+				return tb.And(tb.Cmp(token.LSS, zero, b, true), tb.Cmp(token.LSS, a.Rad, sq(b), true))
+			}
+			return tb.And(tb.Cmp(token.LEQ, zero, b, true), tb.Cmp(token.LEQ, a.Rad, sq(b), true))
+		default: // a < sqrt(y) <=> a < 0 or a^2 < y ; a <= sqrt(y) <=> a <= 0 or a^2 <= y
+			if lt {
+				return tb.Or(tb.Cmp(token.LSS, a, zero, true), tb.Cmp(token.LSS, sq(a), b.Rad, true))
+			}
+			return tb.Or(tb.Cmp(token.LEQ, a, zero, true), tb.Cmp(token.LEQ, sq(a), b.Rad, true))
+		}
+	}
 	if a.IsConst() && b.IsConst() {
 		switch a.S.K {
 		case SBV:
@@ -1290,9 +1321,11 @@ func (tb *TB) FUn(op string, a *Term) *Term {
 		case "isnan", "isinf":
 			return tb.False
 		case "sqrt":
-			return tb.SideVar(fmt.Sprintf("$sqrt%d", a.ID), RealSort, func(v *Term) *Term {
+			sv := tb.SideVar(fmt.Sprintf("$sqrt%d", a.ID), RealSort, func(v *Term) *Term {
 				return tb.And(tb.Cmp(token.GEQ, v, tb.RealC(0), true), tb.Eq(tb.Arith(token.MUL, v, v, true), a))
 			})
+			sv.Rad = a
+			return sv
 		}
 	}
 	switch op {
